@@ -83,7 +83,7 @@ def required_class(block: str, key: str, idx: int) -> str:
 
 IMPORTS = ['Coq.NArith.NArith', 'Coq.ZArith.ZArith', 'Coq.Lists.List', 'Coq.Strings.String', 'SV.KV.KvBase', 'SV.Fmt.VmfText',
            'SV.Fmt.VmfBlocks', 'SV.Gen.VmfTemplates_gen', 'SV.Gen.VmfKeys_gen', 'SV.Gen.VmfDispSizes_gen', 'SV.Gen.VmfOrder_gen',
-           'SV.Gen.VmfProg_gen', 'SV.Fmt.VmfFields', 'SV.Gen.VmfFieldsCfg_gen', 'SV.Fmt.VmfNum', 'SV.Gen.VmfNumFmt_gen', 'SV.Fmt.VmfGuard', 'SV.Fmt.VmfLite', 'SV.Gen.VmfLite_gen', 'SV.Fmt.VmfFlags', 'SV.Gen.VmfFlags_gen', 'SV.Fmt.VmfTok', 'SV.Fmt.VmfPlane', 'SV.Fmt.VmfIds', 'SV.Gen.VmfIds_gen', 'SV.Fmt.VmfTree', 'SV.Fmt.VmfSets', 'SV.Gen.VmfSets_gen', 'SV.KV.KvSym', 'SV.Gen.KVSer_gen', 'SV.Props.C06']
+           'SV.Gen.VmfProg_gen', 'SV.Fmt.VmfFields', 'SV.Gen.VmfFieldsCfg_gen', 'SV.Fmt.VmfNum', 'SV.Gen.VmfNumFmt_gen', 'SV.Fmt.VmfGuard', 'SV.Fmt.VmfLite', 'SV.Gen.VmfLite_gen', 'SV.Fmt.VmfFlags', 'SV.Gen.VmfFlags_gen', 'SV.Fmt.VmfTok', 'SV.Fmt.VmfPlane', 'SV.Fmt.VmfIds', 'SV.Gen.VmfIds_gen', 'SV.Fmt.VmfTree', 'SV.Fmt.VmfSets', 'SV.Gen.VmfSets_gen', 'SV.Fmt.VmfViewport', 'SV.Gen.VmfViewport_gen', 'SV.KV.KvSym', 'SV.Gen.KVSer_gen', 'SV.Props.C06']
 PRE = '''Import ListNotations. Open Scope string_scope.
 Fixpoint nl_eqb (a b : list N) : bool := match a, b with [], [] => true | x :: a', y :: b' => N.eqb x y && nl_eqb a' b' | _, _ => false end.
 Fixpoint bad_idx {A} (f : A -> bool) (n : N) (l : list A) : list N := match l with [] => [] | x :: r => (if f x then [] else [n]) ++ bad_idx f (n + 1)%N r end.
@@ -499,11 +499,11 @@ def corr_ids(ck: Ck, idm: dict) -> None:
     names = sorted(progs)
     lit = coq_list(f'(({names.index(c)}%nat, ({d})%Z), {"true" if k else "false"})' for c, d, k in cases[:500])
     pre = PRE + 'Definition prog_of (i : nat) : idprog := snd (nth i gen_id_classes (EmptyString, nil)).\n'
-    order_ok = ck.coq_eval(IMPORTS, ['map fst gen_id_classes'], name='idnames', preamble=PRE)
     vals = ck.coq_eval(IMPORTS, [
         f'bad_idx (fun c : (nat * Z) * bool => let p := prog_of (fst (fst c)) in let d := snd (fst c) in '
-        f'(Bool.eqb (is_keep (id_get p true d)) (snd c) || Bool.eqb (is_keep (id_get p false d)) (snd c))%bool) 0%N {lit}'],
-        name='idman', preamble=pre)
+        f'(Bool.eqb (is_keep (id_get p true d)) (snd c) || Bool.eqb (is_keep (id_get p false d)) (snd c))%bool) 0%N {lit}',
+        'map fst gen_id_classes'], name='idman', preamble=pre)
+    order_ok = None if vals is None else [vals[1]]
     if vals is None or order_ok is None:
         ck.obligation('correspondence:id_manager_programs', False, 'model could not be evaluated')
         ck.tie_broken.append('correspondence id managers: model evaluation failed')
@@ -531,6 +531,56 @@ def corr_ids(ck: Ck, idm: dict) -> None:
                 ck.violation(f'ids:manager:{attr}', f'VMF(preserve_ids=True).{attr}.get_id({d}) returned {r!r}: the ID is not preserved',
                              {'manager': attr, 'desired': d, 'got': repr(r)})
                 break
+
+
+def corr_viewport(ck: Ck) -> None:
+    """vp_read of Fmt/VmfViewport.v on the generated tiers / axis table against Strata2DViewport.from_vector on generated vectors
+    (coordinates from 0, +-65536, ordinary integers: no marker, one marker, several markers, zeros with and without a marker), and
+    vp_write on the generated slots against the position really written by Strata2DViewport.export."""
+    import io
+    from srctools.keyvalues import Keyvalues
+    from srctools.math import Vec
+    from srctools.vmf import Strata2DViewport
+    pool = [0, 0, 65536, -65536, 5, -7, 1, 65535, 12]
+    ax = {'x': 'AX', 'y': 'AY', 'z': 'AZ'}
+    r_cases, w_cases = [], []
+    for _ in range(ck.budget(150, 600)):
+        p = [ck.rng.choice(pool) for _ in range(3)]
+        try:
+            vp = Strata2DViewport.from_vector(Vec(*p))
+            exp = (vp.axis, int(vp.u), int(vp.v))
+        except ValueError:
+            exp = None
+        r_cases.append((p, exp))
+        ck.count('viewport_vector_cases')
+        ck.hist('viewport_vector', f'{sum(1 for c in p if abs(c) == 65536)} markers, {sum(1 for c in p if c == 0)} zeros')
+        ck.seen(('vpvec', tuple(p)))
+        a, u, v = ck.rng.choice('xyz'), ck.rng.choice(pool[4:] + [0]), ck.rng.choice(pool[4:] + [0])
+        buf = io.StringIO()
+        Strata2DViewport(a, float(u), float(v), 1.0).export(buf, 'v0')
+        pos = next(iter(Keyvalues.parse(buf.getvalue())))['position']
+        w_cases.append(((a, u, v), [int(float(t)) for t in pos.strip('()').split()]))
+    lit_r = coq_list(f'((({p[0]})%Z, ({p[1]})%Z, ({p[2]})%Z), ' + ('None' if e is None else f'Some ({ax[e[0]]}, ({e[1]})%Z, ({e[2]})%Z)') + ')' for p, e in r_cases[:500])
+    lit_w = coq_list(f'((({ax[a]}, ({u})%Z), ({v})%Z), (({w[0]})%Z, ({w[1]})%Z, ({w[2]})%Z))' for (a, u, v), w in w_cases[:500])
+    pre = PRE + 'Open Scope Z_scope.\nDefinition res_eqb (a b : option (ax * Z * Z)) : bool := match a, b with None, None => true ' \
+                '| Some (x, u, v), Some (y, u2, v2) => (ax_eqb x y && (u =? u2) && (v =? v2))%bool | _, _ => false end.\n'
+    vals = ck.coq_eval(IMPORTS, [
+        f'bad_idx (fun c : vec3 * option (ax * Z * Z) => res_eqb (vp_read gen_vp_tiers gen_vp_inv (fst c)) (snd c)) 0%N {lit_r}',
+        f'bad_idx (fun c : ((ax * Z) * Z) * vec3 => let \'(x, y, z) := vp_write gen_vp_tbl (fst (fst (fst c))) (snd (fst (fst c))) (snd (fst c)) in '
+        f'let \'(x2, y2, z2) := snd c in ((x =? x2) && (y =? y2) && (z =? z2))%bool) 0%N {lit_w}'], name='viewport', preamble=pre)
+    if vals is None:
+        ck.obligation('correspondence:viewport_axis', False, 'model could not be evaluated')
+        ck.tie_broken.append('correspondence viewport axis: model evaluation failed')
+        return
+    br, bw = (parse_coq_N_list(v) for v in vals)
+    ck.obligation('correspondence:viewport_axis_read', not br, f'{min(len(r_cases), 500)} vectors, Fmt/VmfViewport.vp_read on the generated tables vs '
+                  f'Strata2DViewport.from_vector: {len(br)} disagreements')
+    ck.obligation('correspondence:viewport_axis_written', not bw, f'{min(len(w_cases), 500)} viewports, Fmt/VmfViewport.vp_write on the generated slots vs '
+                  f'the position written by Strata2DViewport.export: {len(bw)} disagreements')
+    for name, bad, cases in (('viewport_axis_read', br, r_cases), ('viewport_axis_written', bw, w_cases)):
+        if bad:
+            ck.tie_broken.append(f'correspondence {name} (Fmt/VmfViewport.v vs vmf.py)')
+            ck.extra[f'{name}_disagreement'] = repr(cases[bad[0]])
 
 
 def rich_spec(seed: int = 7) -> dict:
@@ -913,10 +963,10 @@ def feature_hist(ck: Ck, spec: dict) -> bool:
 
 
 def search(ck: Ck) -> None:
-    # quick: 240 maps (450 until round 3; lowered to keep the quick tier below 90 s on a heavily loaded machine now that the proof side
+    # quick: 200 maps (450 until round 3, 240 until round 4; lowered to keep the quick tier below 90 s on a heavily loaded machine now that the proof side
     # has 140 more obligations and four more correspondences; the directed corpus and the shipped files run first in any case);
     # quick with a broken tie: 2000; thorough: 7500
-    n = 7500 if ck.thorough else ck.budget(240, 2000)
+    n = 7500 if ck.thorough else ck.budget(200, 2000)
     found: dict[str, tuple[dict, str, dict]] = {}
     # Shrinking budget, counted in oracle evaluations (not wall time, so that results are reproducible): per violation key
     # and in total.  A fault in a hot path produces dozens of keys on big maps; the total keeps a failing run within minutes.
@@ -1017,7 +1067,7 @@ def run(ck: Ck) -> None:
     # C01's generated parser sites (read-only use of C01's translator): premise pcfg_ok of the block theorem
     oks.append(ck.translate('KVSer_gen', c01_kvser.translate))
     tr = ck.extra.get('translated', {})
-    built = all(oks) and ck.build(['Gen/KVSer_gen.vo', 'Gen/VmfIds_gen.vo', 'Gen/VmfSets_gen.vo', 'Props/C06.vo'])
+    built = all(oks) and ck.build(['Gen/KVSer_gen.vo', 'Gen/VmfIds_gen.vo', 'Gen/VmfSets_gen.vo', 'Gen/VmfViewport_gen.vo', 'Props/C06.vo'])
     if built:
         ck.theorems('Props/C06.v')
         obs: dict[str, str] = {}
@@ -1085,6 +1135,8 @@ def run(ck: Ck) -> None:
         for meth in sorted({m for m, _a, _ok in loops}):
             obs[f'membership_lines_in_canonical_order:{meth}'] = f'member_loops_ok (loops_of "{meth}" gen_member_loops)'
         obs['membership_loops_found'] = '(3 <=? List.length gen_member_loops)%nat'
+        # 2D viewport axis (round 4)
+        obs['viewport_axis_tables_agree'] = 'vp_ok gen_vp_tiers gen_vp_tbl gen_vp_inv'
         obs['object_classes_complete'] = f'({len(L.CLASSES)} <=? List.length lite_classes)%nat'
         obs['disp_flags_tables_inverse'] = 'flags_tables_ok gen_flags_written gen_flags_t2c gen_flags_sub gen_flags_count'
         obs['disp_flags_all_values'] = '(16 <=? gen_flags_count)%nat'
@@ -1116,6 +1168,7 @@ def run(ck: Ck) -> None:
         corr_tokens(ck)
         corr_plane(ck)
         corr_ids(ck, tr.get('VmfIds_gen', {}))
+        corr_viewport(ck)
         try:
             validate_tables(ck, tr.get('VmfTemplates_gen', {}), tr.get('VmfKeys_gen', {}))
         except Exception as e:     # the rich map itself may fail to export when the source is broken: the search reports that
@@ -1134,6 +1187,7 @@ def run(ck: Ck) -> None:
         ck.explain('instance:keys_read:')
         ck.explain('instance:fields_paired:')
         ck.explain('instance:attrs_all_written:')
+        ck.explain('instance:containment_')       # an edge needs both of its classes paired
         ck.explain('translate:VmfLite_gen')
         ck.explain('tie:')
     if any('multiblend' in k or 'alphablend' in k for k in keys):
@@ -1179,6 +1233,10 @@ def run(ck: Ck) -> None:
     if any(k.endswith((':visgroupid', ':groupid', 'groupid|visgroupid', 'visgroupid|groupid')) or 'visgroupid' in k or 'groupid' in k for k in keys):
         ck.explain('instance:membership_lines_in_canonical_order')
         ck.explain('instance:membership_loops_found')
+    if any('viewport' in k or 'views' in k or '2D view' in k for k in keys):
+        ck.explain('instance:viewport_axis_tables_agree')
+        ck.explain('correspondence:viewport_axis')
+        ck.explain('translate:VmfViewport_gen')
     if any(k.startswith('order:entities') or k.startswith('text::') for k in keys):
         ck.explain('instance:entity_blocks_read_in_file_order')
     if any('fixups' in k or 'replaceN' in k for k in keys):
